@@ -57,6 +57,60 @@ theorem WF_mkTop {n : Nat} (h : 0 < n) : WF (mkTop n) := by simp [mkTop, WF, h]
 theorem WF_size_pos (e : Expr) (h : WF e) : 0 < e.size := by
   cases e <;> simp only [WF] at h <;> first | exact h.1 | exact h | exact h.2.1
 
+theorem WFList_iff (l : List Expr) (s : Nat) : WFList l s ↔ ∀ x ∈ l, WF x ∧ x.size = s := by
+  induction l with
+  | nil => simp [WFList]
+  | cons x tl ih => simp only [WFList, ih, List.mem_cons, forall_eq_or_imp, and_assoc]
+
+theorem mapM_spec {α β : Type} (f : α → R β) (P : α → Prop) (Q : β → Prop)
+    (hf : ∀ a b, P a → f a = .ok b → Q b) :
+    ∀ (l : List α) (l' : List β), (∀ a ∈ l, P a) → l.mapM f = .ok l' → (∀ b ∈ l', Q b) ∧ l'.length = l.length := by
+  intro l
+  induction l with
+  | nil => intro l' _ h; simp [List.mapM_nil, pure, Except.pure] at h; subst h; simp
+  | cons x tl ih =>
+    intro l' hP h
+    rw [List.mapM_cons] at h
+    cases hx : f x with
+    | error e => rw [hx] at h; cases h
+    | ok y =>
+      rw [hx] at h
+      simp only [bind, Except.bind] at h
+      cases ht : List.mapM f tl with
+      | error e => rw [ht] at h; cases h
+      | ok ys =>
+        rw [ht] at h
+        simp only [pure, Except.pure] at h
+        cases h
+        obtain ⟨h1, h2⟩ := ih ys (fun a ha => hP a (List.mem_cons_of_mem _ ha)) ht
+        refine ⟨?_, by simp [h2]⟩
+        intro b hb
+        rcases List.mem_cons.mp hb with rfl | hb
+        · exact hf x _ (hP x List.mem_cons_self) hx
+        · exact h1 b hb
+
+theorem foldl_max_eq (l : List Expr) (s m : Nat) (h : ∀ x ∈ l, x.size = s) (hm : m ≤ s) (hne : l ≠ []) :
+    l.foldl (fun m e => max m e.size) m = s := by
+  induction l generalizing m with
+  | nil => exact absurd rfl hne
+  | cons x tl ih =>
+    simp only [List.foldl_cons]
+    have hx := h x List.mem_cons_self
+    by_cases ht : tl = []
+    · subst ht; simp only [List.foldl_nil]; omega
+    · exact ih (max m x.size) (fun y hy => h y (List.mem_cons_of_mem _ hy)) (by omega) ht
+
+theorem mkVec_spec (l : List Expr) (s : Nat) (v : Expr) (hs : 0 < s) (hne : l ≠ [])
+    (h : ∀ x ∈ l, WF x ∧ x.size = s) (hv : mkVec l = .ok v) : WF v ∧ v.size = s := by
+  unfold mkVec at hv
+  have hsz : l.foldl (fun m e => max m e.size) 0 = s := foldl_max_eq l s 0 (fun x hx => (h x hx).2) (by omega) hne
+  simp only [hsz] at hv
+  split at hv
+  · cases hv
+  · cases hv
+    simp only [WF, size_vec]
+    exact ⟨⟨hs, hne, (WFList_iff l s).mpr h⟩, trivial⟩
+
 /-- the width an operator node is given by its constructor -/
 def resSize (o : Op) (l : Expr) : Nat := if o.type = 4 then 1 else if o = Op.mul2 then 2 * l.size else l.size
 
@@ -139,6 +193,23 @@ structure WidthIH (cfg : Cfg) (fuel : Nat) : Prop where
         ∀ x : Nat, cnt x ps' = if a ≤ (x : Int) ∧ (x : Int) < b then 1 else cnt x ps
   composer : ∀ parts, (∀ x ∈ parts, WF x) → Post (parts.foldl (fun a x => a + x.size) 0) (composer cfg fuel parts)
   extendExp : ∀ sign x size, WF x → Post (max size x.size) (extendExp cfg fuel sign x size)
+
+theorem resSize_shift (o' : Op) (y : Expr) (h : o'.type = 8 ∨ o' = Op.or ∨ o' = Op.sub) : resSize o' y = y.size := by
+  rcases h with h | rfl | rfl
+  · have hne : o' ≠ Op.mul2 := by intro h'; subst h'; simp [Op.type] at h
+    simp [resSize, h, hne]
+  · simp [resSize, Op.type]
+  · simp [resSize, Op.type]
+
+theorem WF_clearLeftSf (e : Expr) : WF (clearLeftSf e) ↔ WF e := by
+  unfold clearLeftSf
+  split
+  · simp only [WF, size_cst]
+  · rfl
+
+theorem size_clearLeftSf (e : Expr) : (clearLeftSf e).size = e.size := by
+  unfold clearLeftSf
+  split <;> rfl
 
 variable (cfg : Cfg)
 
@@ -228,8 +299,8 @@ theorem api_step (o : Op) (l r : Expr) (hl : WF l) (hr : WF r) (h4 : o.type = 4 
     · exact Post_error _ _
     · split
       · rename_i rv rs rf
-        have := cstApi_post o lv ls (if (o == Op.lsr) = true then false else if (o == Op.asr) = true then true else lf) rv rs rf hl.1
-        simpa [resSize] using this
+        refine Post_of_eq (cstApi_post o _ _ _ _ _ _ hl.1) ?_
+        simp [resSize]
       · have hl' : WF (cst lv ls (if (o == Op.lsr) = true then false else if (o == Op.asr) = true then true else lf)) := hl
         have := ih.apiExp o _ r hl' hr h4
         simpa [resSize] using this
@@ -248,67 +319,92 @@ theorem helperCmp_step (o : Op) (x y : Expr) (hx : WF x) (hy : WF y) (hs : x.siz
     have := mkOp_spec o x y e hx hy (fun _ => hs) he
     simpa [resSize, ho] using this
 
-theorem resSize_shift (o' : Op) (y : Expr) (h : o'.type = 8 ∨ o' = Op.or ∨ o' = Op.sub) : resSize o' y = y.size := by
-  rcases h with h | rfl | rfl
-  · have hne : o' ≠ Op.mul2 := by intro h'; subst h'; simp [Op.type] at h
-    simp [resSize, h, hne]
-  · simp [resSize, Op.type]
-  · simp [resSize, Op.type]
-
 theorem helperRot_step (o : Op) (x n : Expr) (hx : WF x) (hn : WF n) (ho : o.type = 8) :
     Post x.size (helperRot cfg (fuel + 1) o x n) := by
   rw [helperRot.eq_def]; dsimp only
   have hx' : WF (x.setSf false) := (WF_setSf _ _).mpr hx
-  have h8 : ∀ (c : Bool) (a b : Op), a.type = 8 → b.type = 8 → (if c then a else b).type = 8 := by
-    intro c a b ha hb; cases c <;> simp [ha, hb]
-  split
-  · -- both constants
-    apply Post_bind; intro t1 ht1
-    apply Post_bind; intro t2 ht2
-    have hc : ∀ k : Nat, WF (mkCst (k : Int) x.size) := fun k => WF_mkCst _ _ (WF_size_pos _ hx)
-    have ho1 : (if (o == Op.ror) = true then (Op.lsr, Op.lsl) else (Op.lsl, Op.lsr)).1.type = 8 := by
-      split <;> rfl
-    have ho2 : (if (o == Op.ror) = true then (Op.lsr, Op.lsl) else (Op.lsl, Op.lsr)).2.type = 8 := by
-      split <;> rfl
-    have h1 := ih.api _ x _ hx (hc _) (by intro h; omega) t1 ht1
-    have h2 := ih.api _ _ _ (by split <;> exact hx') (hc _) (by intro h; omega) t2 ht2
-    rw [resSize_shift _ _ (Or.inl ho1)] at h1
-    rw [resSize_shift _ _ (Or.inl ho2)] at h2
-    have e2 : t2.size = x.size := by rw [h2.2]; split <;> simp
-    have := ih.api Op.or t1 t2 h1.1 h2.1 (by intro h; simp [Op.type] at h)
-    rw [resSize_shift Op.or t1 (Or.inr (Or.inl rfl)), h1.2] at this
+  have hc : ∀ k : Nat, WF (mkCst (k : Int) x.size) := fun k => WF_mkCst _ _ (WF_size_pos _ hx)
+  have hcn : WF (mkCst (x.size : Int) n.size) := WF_mkCst _ _ (WF_size_pos _ hn)
+  have lsr8 : Op.lsr.type = 8 := rfl
+  have lsl8 : Op.lsl.type = 8 := rfl
+  -- the common tail: `t1 | t2` with both of the width of `x`
+  have tail : ∀ t1 t2 : Expr, WF t1 → t1.size = x.size → WF t2 → t2.size = x.size →
+      Post x.size (api cfg fuel Op.or t1 t2) := by
+    intro t1 t2 w1 s1 w2 s2
+    have := ih.api Op.or t1 t2 w1 w2 (by intro h; simp [Op.type] at h)
+    rw [resSize_shift Op.or t1 (Or.inr (Or.inl rfl)), s1] at this
     exact this
+  split
   · split
     · apply Post_bind; intro t1 ht1
-      apply Post_bind; intro k hk
       apply Post_bind; intro t2 ht2
-      have ho1 : (if (o == Op.ror) = true then (Op.lsr, Op.lsl) else (Op.lsl, Op.lsr)).1.type = 8 := by
-        split <;> rfl
-      have ho2 : (if (o == Op.ror) = true then (Op.lsr, Op.lsl) else (Op.lsl, Op.lsr)).2.type = 8 := by
-        split <;> rfl
-      have h1 := ih.api _ x n hx hn (by intro h; omega) t1 ht1
-      rw [resSize_shift _ _ (Or.inl ho1)] at h1
-      have hcn : WF (mkCst (x.size : Int) n.size) := WF_mkCst _ _ (WF_size_pos _ hn)
-      have hk' := ih.api Op.sub _ n hcn hn (by intro h; simp [Op.type] at h) k hk
-      have h2 := ih.api _ _ k (by split <;> first | exact hx' | exact hx) hk'.1 (by intro h; omega) t2 ht2
-      rw [resSize_shift _ _ (Or.inl ho2)] at h2
-      have e2 : t2.size = x.size := by rw [h2.2]; split <;> simp
-      have ht1' : WF (match t1 with
-          | op to (cst tv ts sf) tr tsz tsf tp => op to (cst tv ts false) tr tsz tsf tp
-          | x => t1) ∧ (match t1 with
-          | op to (cst tv ts sf) tr tsz tsf tp => op to (cst tv ts false) tr tsz tsf tp
-          | x => t1).size = x.size := by
-        split
-        · rename_i to tv ts sf tr tsz tsf tp
-          have := h1.1
-          simp only [WF] at this ⊢
-          exact ⟨this, h1.2⟩
-        · exact h1
-      sorry
+      have h1 := ih.api Op.lsr x _ hx (hc _) (by intro h; simp [Op.type] at h) t1 ht1
+      have h2 := ih.api Op.lsl _ _ hx' (hc _) (by intro h; simp [Op.type] at h) t2 ht2
+      rw [resSize_shift _ _ (Or.inl lsr8)] at h1
+      rw [resSize_shift _ _ (Or.inl lsl8), size_setSf] at h2
+      exact tail t1 t2 h1.1 h1.2 h2.1 h2.2
+    · apply Post_bind; intro t1 ht1
+      apply Post_bind; intro t2 ht2
+      have h1 := ih.api Op.lsl x _ hx (hc _) (by intro h; simp [Op.type] at h) t1 ht1
+      have h2 := ih.api Op.lsr _ _ hx (hc _) (by intro h; simp [Op.type] at h) t2 ht2
+      rw [resSize_shift _ _ (Or.inl lsl8)] at h1
+      rw [resSize_shift _ _ (Or.inl lsr8)] at h2
+      exact tail t1 t2 h1.1 h1.2 h2.1 h2.2
+  · split
+    · split
+      · apply Post_bind; intro t1 ht1
+        apply Post_bind; intro k hk
+        apply Post_bind; intro t2 ht2
+        have h1 := ih.api Op.lsr x n hx hn (by intro h; simp [Op.type] at h) t1 ht1
+        have hk' := ih.api Op.sub _ n hcn hn (by intro h; simp [Op.type] at h) k hk
+        have h2 := ih.api Op.lsl _ k hx' hk'.1 (by intro h; simp [Op.type] at h) t2 ht2
+        rw [resSize_shift _ _ (Or.inl lsr8)] at h1
+        rw [resSize_shift _ _ (Or.inl lsl8), size_setSf] at h2
+        exact tail t1 t2 h1.1 h1.2 h2.1 h2.2
+      · apply Post_bind; intro t1 ht1
+        apply Post_bind; intro k hk
+        apply Post_bind; intro t2 ht2
+        have h1 := ih.api Op.lsl x n hx hn (by intro h; simp [Op.type] at h) t1 ht1
+        have hk' := ih.api Op.sub _ n hcn hn (by intro h; simp [Op.type] at h) k hk
+        have h2 := ih.api Op.lsr _ k hx hk'.1 (by intro h; simp [Op.type] at h) t2 ht2
+        rw [resSize_shift _ _ (Or.inl lsl8)] at h1
+        rw [resSize_shift _ _ (Or.inl lsr8)] at h2
+        exact tail _ t2 ((WF_clearLeftSf _).mpr h1.1) (by rw [size_clearLeftSf]; exact h1.2) h2.1 h2.2
     · intro e he
       have := mkOp_spec o x n e hx hn (by intro h; omega) he
       rw [resSize_shift o x (Or.inl ho)] at this
       exact this
+
+theorem callOp_step (o : Op) (l r : Expr) (hl : WF l) (hr : WF r) (h4 : o.type = 4 → l.size = r.size) :
+    Post (resSize o l) (callOp cfg (fuel + 1) o l r) := by
+  rw [callOp.eq_def]; dsimp only
+  have hl' : WF (if o.unsignedCall = true then l.setSf false else l) := by
+    split
+    · exact (WF_setSf _ _).mpr hl
+    · exact hl
+  have hr' : WF (if o.unsignedCall = true then r.setSf false else r) := by
+    split
+    · exact (WF_setSf _ _).mpr hr
+    · exact hr
+  have sl : (if o.unsignedCall = true then l.setSf false else l).size = l.size := by split <;> simp
+  have sr : (if o.unsignedCall = true then r.setSf false else r).size = r.size := by split <;> simp
+  have rsz : resSize o (if o.unsignedCall = true then l.setSf false else l) = resSize o l := by
+    unfold resSize; rw [sl]
+  split
+  · have := ih.helperCmp Op.ltu _ _ hl' hr' (by rw [sl, sr]; exact h4 rfl) rfl
+    simpa [resSize, Op.type] using this
+  · have := ih.helperCmp Op.geu _ _ hl' hr' (by rw [sl, sr]; exact h4 rfl) rfl
+    simpa [resSize, Op.type] using this
+  · have := ih.helperRot Op.ror _ _ hl' hr' rfl
+    rw [sl] at this
+    simpa [resSize, Op.type] using this
+  · have := ih.helperRot Op.rol _ _ hl' hr' rfl
+    rw [sl] at this
+    simpa [resSize, Op.type] using this
+  · exact Post_error _ _
+  · have := ih.api o _ _ hl' hr' (by intro h; rw [sl, sr]; exact h4 h)
+    rw [rsz] at this
+    exact this
 
 end steps
 
